@@ -61,6 +61,7 @@ type Machine struct {
 	hashInjective bool
 	nowT     *Term
 	inInit   int
+	uniq     []uniqEntry
 	context  string // nd.Context: the swept case, part of panic fingerprints
 }
 
@@ -571,6 +572,28 @@ func (m *Machine) step(v ssa.Value, fr *frame) Value {
 			}
 			return Ptr{node: a.node, idx: a.off + i}
 		}
+	case *ssa.SliceToArrayPointer:
+		sl := m.eval(in.X, fr).(Slice)
+		n := int(in.Type().(*types.Pointer).Elem().Underlying().(*types.Array).Len())
+		if sl.len < n {
+			m.end("gopanic", fmt.Sprintf("cannot convert slice with length %d to array or pointer to array with length %d in %s", sl.len, n, fr.fn))
+		}
+		if sl.node == nil {
+			return Ptr{}
+		}
+		slot := m.newNode(1)
+		if sl.off == 0 && len(sl.node.elems) == n {
+			slot.elems[0] = sl.node // exact alias of the backing array
+		} else {
+			// a view into the middle of a larger backing array: modelled as a copy (exact for the
+			// read-and-copy idiom *(*[N]T)(s); writes through the pointer would not be seen by the slice)
+			arr := m.newNode(n)
+			for i := 0; i < n; i++ {
+				arr.elems[i] = m.copyVal(sl.node.elems[sl.off+i])
+			}
+			slot.elems[0] = arr
+		}
+		return Ptr{node: slot, idx: 0}
 	case *ssa.Lookup:
 		return m.lookup(in, fr)
 	case *ssa.MakeClosure:
@@ -1415,6 +1438,40 @@ func (m *Machine) builtin(b *ssa.Builtin, args []Value, raw []ssa.Value, fr *fra
 		}
 		return acc
 	case "print", "println":
+		return nil
+	case "String": // unsafe.String(ptr, len)
+		p, ok := args[0].(Ptr)
+		n := int(int64(m.concretize(m.term(args[1]), "unsafe.String length")))
+		if n == 0 {
+			return Str{}
+		}
+		if !ok || p.isNil() || p.idx+n > len(p.node.elems) {
+			m.end("unsupported", "unsafe.String on an object the executor cannot view as bytes")
+		}
+		cells := make([]*Term, n)
+		for i := 0; i < n; i++ {
+			cells[i] = m.term(p.node.elems[p.idx+i])
+		}
+		return Str{cells}
+	case "clear":
+		switch a := args[0].(type) {
+		case Slice:
+			if a.len > 0 {
+				m.noteWrite(a.node, "clear in "+fr.fn.String())
+			}
+			var zt types.Type
+			if st, ok := raw[0].Type().Underlying().(*types.Slice); ok {
+				zt = st.Elem()
+			}
+			for i := 0; i < a.len; i++ {
+				m.assignInto(a.node, a.off+i, m.zero(zt))
+			}
+		case *MapObj:
+			if a != nil {
+				m.noteWriteMap(a, "clear in "+fr.fn.String())
+				a.keys, a.vals = nil, nil
+			}
+		}
 		return nil
 	}
 	m.end("unsupported", "builtin "+b.Name())
